@@ -398,7 +398,8 @@ static bool parse_wans(const std::string &w0, WAns &a) {
     if (w == "ea") { a.kind = 'e'; return true; }
     if (w == "er") { a.kind = 'x'; a.err = EPIPE; return true; }
     if (w.size() >= 2 && w[0] == 'e' && vh::to_u64(w.substr(1), k)
-        && (k == EINTR || k == EIO || k == ENOMEM || k == ENOSPC || k == EPIPE || k == ECONNRESET || k == ENOBUFS)) { a.kind = 'x'; a.err = (int)k; return true; }
+        && (k == EINTR || k == EIO || k == ENOMEM || k == ENOSPC || k == EPIPE || k == ECONNRESET || k == ENOBUFS
+            || k == EBADF || k == EFAULT || k == EFBIG || k == ENETUNREACH || k == ENOTCONN || k == ETIMEDOUT || k == EHOSTUNREACH || k == EDQUOT)) { a.kind = 'x'; a.err = (int)k; return true; }
     if (w.size() >= 2 && w[0] == 'a' && vh::to_u64(w.substr(1), k)) { a.kind = 'a'; a.k = k; return true; }
     return false;
 }
@@ -1018,12 +1019,19 @@ static bool op(const std::vector<std::string> &w) {
         // setReconnectDelayCalcFunc: seconds after the k-th failure from the table, 1 beyond it
         kn->setReconnectDelayCalcFunc([dl](int k) { return (k >= 1 && (size_t)(k - 1) < dl.size()) ? dl[k - 1] : 1; });
     }
-    else if (o == "nkdelayact" && w.size() == 4 && parse_delays(w[1], dl) && vh::to_u64(w[2], n) && n >= 1 && n <= 5 && (w[3] == "stop" || w[3] == "cleanup")) {
+    else if (o == "nkdelayact" && w.size() == 4 && parse_delays(w[1], dl) && vh::to_u64(w[2], n) && n >= 1 && n <= 5
+             && (w[3] == "stop" || w[3] == "cleanup" || (w[3] == "restart" && n >= 2))) {
         // … a delay function that calls stop() / cleanup() of its own connector when it is asked about the n-th failure
-        bool cleanup = w[3] == "cleanup"; int at = (int)n; Guard g;
-        kn->setReconnectDelayCalcFunc([dl, at, cleanup, g](int k) {
+        // … or stop() and start(): the connect(2) of that start() is refused at once (the function is asked again, about failure 1,
+        // from inside itself; afterwards the timer object is not the one the outer call made)
+        bool cleanup = w[3] == "cleanup", restart = w[3] == "restart"; int at = (int)n; Guard g;
+        kn->setReconnectDelayCalcFunc([dl, at, cleanup, restart, g](int k) {
             int r = (k >= 1 && (size_t)(k - 1) < dl.size()) ? dl[k - 1] : 1;
-            if (k == at) { if (cleanup) kn->cleanup(); else kn->stop(); }
+            if (k == at) {
+                if (cleanup) kn->cleanup();
+                else if (restart) { kn->stop(); int before = g_conn_refuse; ++g_conn_refuse; kn->start(); if (g_conn_refuse > before) g_conn_refuse = before; }   // (socket() failed instead)
+                else kn->stop();
+            }
             g.touch();
             return r; });
     }
